@@ -183,8 +183,10 @@ def finish(res: Result, *, tier: str, seed: int, t0: float, checker_cmd: str, as
         lines.append(f'CHECKER-ERROR property={prop} obligation disappeared: {m}')
     for ln in lines:
         print(ln)
-    n_ob = len(res.obligations) - len(known_hits)
-    n_dis = discharged
+    bounded_names = [n for n in res.obligations if n.endswith('[bounded]')]
+    bounded_ok = [n for n in bounded_names if res.obligations[n]['verdict'] == 'discharged']
+    n_ob = len(res.obligations) - len(known_hits) - len(bounded_names)
+    n_dis = discharged - len(bounded_ok)
     samples = []
     for name, e in list(sorted(res.obligations.items()))[:: max(1, len(res.obligations) // 12)][:14]:
         samples.append({'obligation': name, 'verdict': e['verdict'], 'vc_instances': e['instances'],
@@ -215,6 +217,7 @@ def finish(res: Result, *, tier: str, seed: int, t0: float, checker_cmd: str, as
         'functions_inlined': sorted(res.inlined - res.functions),
         'extern_contracts_used': sorted(res.externs),
         'bounded_standins': res.bounded,
+        'bounded_obligations_not_counted_as_proved': bounded_names,
         'not_decided_clauses': not_decided,
         'known_finding_obligations': [n for n, _, _ in known_hits],
         'undecided_obligations': undecided,
